@@ -517,30 +517,38 @@ def run_check(chk, argv):
     known = load_findings().get(pid, [])
     known_keys = {k for k, _ in known}
     violations = []; known_hit = {}
-    def impl_fails(evs, want_key=None):
+    def unknown_alarms(evs):
         r, _ = run_batch(iexe, [Case('s', evs)], shards=1)
         st, outs = r.get('s', ('missing', []))
-        return bool(chk.monitor(Case('s', evs), st, outs))
+        c0 = Case('s', evs)
+        return [v for v in chk.monitor(c0, st, outs) if not (chk.finding_key(c0, v) is not None and chk.finding_key(c0, v) in known_keys)]
+    def impl_fails(evs, want_key=None):
+        # shrinking must preserve an alarm that is NOT a listed finding (otherwise a new violation could shrink into a known one)
+        return bool(unknown_alarms(evs))
     seen_msgs = set()
-    for (c, v) in alarms[:200]:
+    unknown = []
+    for (c, v) in alarms:                      # classify every alarm first (cheap), so a new violation is never hidden behind known ones
         key = chk.finding_key(c, v)
         if key is not None and key in known_keys:
             known_hit.setdefault(key, (c, v)); continue
-        sig = re.sub(r'\d+', 'N', v)[:80]
+        unknown.append((c, v))
+    for (c, v) in unknown[:400]:
+        sig = re.sub(r'\d+', 'N', v)[:240]
         if sig in seen_msgs: continue
         seen_msgs.add(sig)
+        if len(violations) >= 8: break
         evs = c.evs
         if len(violations) < 3:
             try: evs = ddmin(list(c.evs), impl_fails)
             except Exception as ex: notes.append('shrink failed: %r' % ex)
         c2 = Case(c.id, evs)
         # re-classify the minimised case
-        r, _ = run_batch(iexe, [Case('s', evs)], shards=1); st, outs = r.get('s', ('missing', []))
-        vs = chk.monitor(c2, st, outs)
-        v2 = vs[0] if vs else v
-        key = chk.finding_key(c2, v2)
-        if key is not None and key in known_keys:
-            known_hit.setdefault(key, (c2, v2)); continue
+        vs = unknown_alarms(evs)
+        if not vs:
+            # the minimised case no longer shows an unlisted alarm (flaky shrink): fall back to the original case
+            evs = c.evs; c2 = Case(c.id, evs); vs = unknown_alarms(evs)
+            if not vs: vs = [v]
+        v2 = vs[0]
         path = write_replay(pid, '%s_%s_%d.txt' % (tier, re.sub(r'[^A-Za-z0-9]+', '_', c.id), len(violations)),
                             '# property %s violated on the implementation: %s\n# case %s (minimised from %d to %d events)\n%s' %
                             (pid, v2, c.id, len(c.evs), len(evs), case_text(c2)))
